@@ -525,7 +525,8 @@ class RunLengthEncoding(Encoding):
 
     @caching.cache_decorator
     def size(self):
-        return runlength.rle_length(self._data)
+        # a plain int: np.uint64 (unsigned counts) makes `size - 1` a float
+        return int(runlength.rle_length(self._data))
 
     def _flip(self, axes):
         if axes != (0,):
@@ -637,7 +638,7 @@ class BinaryRunLengthEncoding(RunLengthEncoding):
 
     @caching.cache_decorator
     def size(self):
-        return runlength.brle_length(self._data)
+        return int(runlength.brle_length(self._data))
 
     def _flip(self, axes):
         if axes != (0,):
@@ -941,7 +942,7 @@ class FlippedEncoding(LazyIndexMap):
         shape = self.shape
         for a in self._axes:
             indices[:, a] *= -1
-            indices[:, a] += shape[a] - 1
+            indices[:, a] += int(shape[a]) - 1
         return indices
 
     def _from_base_indices(self, base_indices):
